@@ -32,6 +32,10 @@ Definition mk_img (inn outn : list string) (lin : list (list Q)) (trn : list Q) 
 Definition tab_oracle (tab : list (list (list Q) * list (option nat))) : orac :=
   fun M => match find (fun p => qmat_eqb (fst p) M) tab with Some p => snd p | None => [] end.
 
+(* np.argsort answers recorded during the call (keys with nan -> max+1); default: stable argsort *)
+Definition tab_sorter (stab : list (list nat * list nat)) : list nat -> list nat :=
+  fun k => match find (fun p => natlist_eqb (fst p) k) stab with Some p => snd p | None => argsort k end.
+
 Definition err_code (e : err) : nat :=
   match e with
   | EReorder => 1 | ESpaceCoupled => 2 | ENsCoupled => 3 | EWorld => 4 | EUnknownAffine => 5 | ETooMany => 6
@@ -70,10 +74,10 @@ Definition agrees {A B} (obs : A -> B) (eqb : B -> B -> bool) (r : res A) (expec
   | _, _ => false
   end.
 
-Definition n2n_agrees strict fix0 tab im expected : bool :=
-  agrees observe_n nobs_eqb (nipy2nifti Z strict fix0 (tab_oracle tab) im) expected.
-Definition roundtrip_agrees strict fix0 tab im expected : bool :=
-  agrees observe_i iobs_eqb (bind (nipy2nifti Z strict fix0 (tab_oracle tab) im) (nifti2nipy Z)) expected.
+Definition n2n_agrees strict fix0 tab stab im expected : bool :=
+  agrees observe_n nobs_eqb (nipy2nifti Z strict fix0 (tab_oracle tab) (tab_sorter stab) im) expected.
+Definition roundtrip_agrees strict fix0 tab stab im expected : bool :=
+  agrees observe_i iobs_eqb (bind (nipy2nifti Z strict fix0 (tab_oracle tab) (tab_sorter stab) im) (nifti2nipy Z)) expected.
 Definition load_agrees (h : nimg Z) expected : bool :=
   agrees observe_i iobs_eqb (nifti2nipy Z h) expected.
 Definition ftl_agrees fix0 tab (im : img Z) (expected : option (nat * option nat * string) + nat) : bool :=
@@ -90,8 +94,17 @@ Definition ftype_agrees (f : string) (expected : option string) : bool :=
   option_eqb String.eqb (type_from_filename f) expected.
 
 (* printable versions for replays *)
-Definition show_n2n strict fix0 tab im :=
-  match nipy2nifti Z strict fix0 (tab_oracle tab) im with Ok h => inl (observe_n h) | Err e => inr e end.
-Definition show_rt strict fix0 tab im :=
-  match bind (nipy2nifti Z strict fix0 (tab_oracle tab) im) (nifti2nipy Z) with Ok i => inl (observe_i i) | Err e => inr e end.
+Definition show_n2n strict fix0 tab stab im :=
+  match nipy2nifti Z strict fix0 (tab_oracle tab) (tab_sorter stab) im with Ok h => inl (observe_n h) | Err e => inr e end.
+Definition show_rt strict fix0 tab stab im :=
+  match bind (nipy2nifti Z strict fix0 (tab_oracle tab) (tab_sorter stab) im) (nifti2nipy Z) with Ok i => inl (observe_i i) | Err e => inr e end.
 Definition show_load h := match nifti2nipy Z h with Ok i => inl (observe_i i) | Err e => inr e end.
+
+(* idempotence path: nipy2nifti (strict) of what nifti2nipy made of a converted image *)
+Definition idem_agrees strict fix0 tab stab im expected : bool :=
+  agrees observe_n nobs_eqb
+         (bind (bind (nipy2nifti Z strict fix0 (tab_oracle tab) (tab_sorter stab) im) (nifti2nipy Z))
+               (nipy2nifti Z true fix0 (tab_oracle tab) (tab_sorter stab))) expected.
+Definition show_idem strict fix0 tab stab im :=
+  match bind (bind (nipy2nifti Z strict fix0 (tab_oracle tab) (tab_sorter stab) im) (nifti2nipy Z))
+             (nipy2nifti Z true fix0 (tab_oracle tab) (tab_sorter stab)) with Ok h => inl (observe_n h) | Err e => inr e end.
